@@ -40,7 +40,10 @@ func c05exec(j run.Job, a *run.Acc) {
 	r := rand.New(rand.NewSource(j.Seed))
 	ar := newArith()
 	for it := 0; it < j.N; it++ {
-		g := &arithGen{r: r, maxDepth: 2 + r.Intn(j.Param("depth", 6)), zeroBias: []int{0, 5, 25}[r.Intn(3)], ws: c05ws}
+		g := &arithGen{r: r, maxDepth: 2 + r.Intn(j.Param("depth", 6)), zeroBias: []int{0, 5, 25}[r.Intn(3)], ws: c05ws, longChains: true}
+		if g.maxDepth > 4 {
+			g.longChains = false // long chains only around shallow operands, the input would get too long otherwise
+		}
 		ast := g.expr(g.maxDepth)
 		var sb strings.Builder
 		g.print(ast, &sb)
